@@ -765,22 +765,6 @@ def judge_R(ctx, case, ent, out, wit, variant):
     return judge_state(ctx, case, ent.name, out, wit, want=want)
 
 
-def _is_plain_terminal(items):
-    """all measurements terminal (no later operation on their qubits) and no classical control / repeated key"""
-    busy, keys = set(), set()
-    for s in reversed(items):
-        w, ks = P.step_qubits_keys(s)
-        if s["t"] == "C":
-            return False
-        if s["t"] == "M":
-            if set(s["w"]) & busy or s["key"] in keys:
-                return False
-            keys.add(s["key"])
-        else:
-            busy |= w
-    return True
-
-
 def sec_measured(ctx, rng, case_no):
     n = int(rng.integers(2, 5))
     mode = int(rng.integers(4))
@@ -837,7 +821,7 @@ def sec_measured(ctx, rng, case_no):
         if res is None:
             continue
         w2 = dict(wit, options=_optdesc(kw), context=variant)
-        if ent.name == "dephase_measurements" and has_ctrl and not ("tags" in variant and all(IG in s.get("tags", ()) for s in items if s["t"] == "C")):
+        if ent.name == "dephase_measurements" and has_ctrl:
             # documented: ValueError when the circuit contains classical controls
             only_tagged = all(s.get("tags") for s in items if s["t"] == "C")
             ctx.check(False, "documented-rejection", K_DEPHASE_TAGGED if only_tagged else "C06:rejection-missing:dephase_measurements",
@@ -1784,12 +1768,12 @@ def sec_special(ctx, rng, case_no):
 
 
 SECTIONS = [
-    ("unitary", sec_unitary, 340, 6000, 5.0),
-    ("measured", sec_measured, 150, 2600, 5.0),
-    ("deep", sec_deep, 250, 4000, 3.0),
-    ("gauge", sec_gauge, 260, 4500, 2.0),
-    ("primitives", sec_primitives, 240, 4000, 3.0),
-    ("sweep", sec_sweep, 260, 4000, 1.0),
-    ("pipeline", sec_pipeline, 240, 4000, 1.0),
-    ("special", sec_special, 450, 6000, 0.3),
+    ("unitary", sec_unitary, 224, 6000, 5.0),
+    ("measured", sec_measured, 98, 2600, 5.0),
+    ("deep", sec_deep, 196, 4000, 3.0),
+    ("gauge", sec_gauge, 196, 4500, 2.0),
+    ("primitives", sec_primitives, 182, 4000, 3.0),
+    ("sweep", sec_sweep, 210, 4000, 1.0),
+    ("pipeline", sec_pipeline, 196, 4000, 1.0),
+    ("special", sec_special, 420, 6000, 0.3),
 ]
